@@ -8,6 +8,7 @@ import Ovldverif.Model.Build
 import Ovldverif.Model.ClassBody
 import Ovldverif.Spec.ClassSpec
 import Ovldverif.Model.Normalize
+import Ovldverif.Model.RewriteStmt
 import Ovldverif.Spec.Types
 import Ovldverif.Spec.Resolve
 /-! Line-protocol driver: one JSON scenario per input line, one JSON result per output line. -/
@@ -384,10 +385,37 @@ def runB (j : Json) : Except String Json := do
   return Json.mkObj [("norm", Json.arr res.toArray), ("subtler", Json.arr sub.toArray)]
 
 /-- layer H: the model of `NameConverter` applied to an expression of the modelled subset -/
+partial def stmtOfJson (j : Json) : Except String Ovld.Rw.Stmt := do
+  let a ← jArr j
+  let k ← jStr a[0]!
+  let block (x : Json) : Except String (List Ovld.Rw.Stmt) := do (← jArr x).toList.mapM stmtOfJson
+  match k with
+  | "assign" => pure (.assign (← jStr a[1]!) (← Ovld.Rw.exprOfJson a[2]!))
+  | "expr" => pure (.expr (← Ovld.Rw.exprOfJson a[1]!))
+  | "ret" => pure (.ret (← Ovld.Rw.exprOfJson a[1]!))
+  | "ite" => pure (.ite (← Ovld.Rw.exprOfJson a[1]!) (← block a[2]!) (← block a[3]!))
+  | "while" => pure (.while (← Ovld.Rw.exprOfJson a[1]!) (← block a[2]!))
+  | "try" => pure (.tryFinally (← block a[1]!) (← block a[2]!))
+  | "raise" => pure (.raise (← jNat a[1]!))
+  | "pass" => pure .pass
+  | _ => throw s!"bad statement kind {k}"
+
+partial def stmtToJson : Ovld.Rw.Stmt → Json
+  | .assign x e => Json.arr #[Json.str "assign", Json.str x, Ovld.Rw.exprToJson e]
+  | .expr e => Json.arr #[Json.str "expr", Ovld.Rw.exprToJson e]
+  | .ret e => Json.arr #[Json.str "ret", Ovld.Rw.exprToJson e]
+  | .ite c t e => Json.arr #[Json.str "ite", Ovld.Rw.exprToJson c, Json.arr (t.map stmtToJson).toArray, Json.arr (e.map stmtToJson).toArray]
+  | .while c b => Json.arr #[Json.str "while", Ovld.Rw.exprToJson c, Json.arr (b.map stmtToJson).toArray]
+  | .tryFinally b f => Json.arr #[Json.str "try", Json.arr (b.map stmtToJson).toArray, Json.arr (f.map stmtToJson).toArray]
+  | .raise n => Json.arr #[Json.str "raise", toJson n]
+  | .pass => Json.arr #[Json.str "pass"]
+
 def runH (j : Json) : Except String Json := do
-  let es ← (← jArr (← jField j "exprs")).toList.mapM Ovld.Rw.exprOfJson
+  let es ← (← jArr (jFieldD j "exprs" (Json.arr #[]))).toList.mapM Ovld.Rw.exprOfJson
+  let bs ← (← jArr (jFieldD j "blocks" (Json.arr #[]))).toList.mapM (fun b => do (← jArr b).toList.mapM stmtOfJson)
   return Json.mkObj [("rw", Json.arr (es.map (fun e => Ovld.Rw.exprToJson (Ovld.Rw.rw e 0).1)).toArray),
-    ("userOnly", toJson (es.map Ovld.Rw.userOnly))]
+    ("userOnly", toJson (es.map Ovld.Rw.userOnly)),
+    ("rwS", Json.arr (bs.map (fun b => Json.arr ((Ovld.Rw.rwS b 0).1.map stmtToJson).toArray)).toArray)]
 
 def runLine (line : String) : String :=
   match Json.parse line with
